@@ -224,6 +224,20 @@ func cleanPath(p, proto string) string {
 	return ""
 }
 
+// isValidScheme reports whether s is a URL scheme: a letter followed by letters, digits, '+', '-' or '.'.
+func isValidScheme(s string) bool {
+	for i := 0; i < len(s); i++ {
+		c := s[i]
+		switch {
+		case 'a' <= c && c <= 'z' || 'A' <= c && c <= 'Z':
+		case i > 0 && ('0' <= c && c <= '9' || c == '+' || c == '-' || c == '.'):
+		default:
+			return false
+		}
+	}
+	return s != ""
+}
+
 func (m *urlModule) fixURL(u *url.URL) {
 	if u.Scheme != "" || u.Host != "" || strings.HasPrefix(u.Path, "/") {
 		u.Path = cleanPath(u.Path, u.Scheme)
@@ -259,9 +273,11 @@ func (m *urlModule) createURLPrototype() *goja.Object {
 	}, func(u *nodeURL, arg goja.Value) {
 		host := arg.String()
 		if pu, err := url.ParseRequestURI(u.url.Scheme + "://" + host); err == nil && pu.Host == host {
-			u.url.Host = host
-			dropDefaultPort(u.url)
-			m.fixURL(u.url)
+			nu := *u.url // fixURL throws for a host it cannot normalise: nothing of the assignment may be stored then
+			nu.Host = host
+			dropDefaultPort(&nu)
+			m.fixURL(&nu)
+			*u.url = nu
 		}
 	})
 
@@ -288,12 +304,14 @@ func (m *urlModule) createURLPrototype() *goja.Object {
 			return
 		}
 		if pu, err := url.ParseRequestURI(u.url.Scheme + "://" + h); err == nil && pu.Host == h {
+			nu := *u.url
 			if port := u.url.Port(); port != "" {
-				u.url.Host = h + ":" + port
+				nu.Host = h + ":" + port
 			} else {
-				u.url.Host = h
+				nu.Host = h
 			}
-			m.fixURL(u.url)
+			m.fixURL(&nu)
+			*u.url = nu
 		}
 	})
 
@@ -360,12 +378,17 @@ func (m *urlModule) createURLPrototype() *goja.Object {
 			s = s[:pos]
 		}
 		s = strings.ToLower(s)
+		if !isValidScheme(s) {
+			return // "/" + "://" + host parses (as a path), but a URL with that scheme does not parse again
+		}
 		if isSpecialProtocol(u.url.Scheme) == isSpecialProtocol(s) {
 			if _, err := url.ParseRequestURI(s + "://" + u.url.Host); err == nil {
-				u.url.Scheme = s
-				dropDefaultPort(u.url)
+				nu := *u.url
+				nu.Scheme = s
+				dropDefaultPort(&nu)
 				// a host that was stored under "file:" has not been lower-cased or converted to punycode yet
-				m.fixURL(u.url)
+				m.fixURL(&nu)
+				*u.url = nu
 			}
 		}
 	})
